@@ -141,11 +141,21 @@ func agree(impl, model string) bool { return plugin.ResultsAgree(impl, model) }
 // CompareAll sends all transcripts through ONE driver run (every transcript starts with `init`, which resets the
 // model) and returns the first disagreement of each transcript (nil = none).
 func CompareAll(e *hx.Env, ts []*plugin.Transcript) ([]*hx.Disagreement, error) {
+	return compareAll(e, ts, RunDriver7)
+}
+
+// DriverFunc pipes op lines to a Lean driver.
+type DriverFunc func(e *hx.Env, lines []string) ([]string, error)
+
+// CoreDriver is gxdrv_plugin (the compiled driver of the core model).
+func CoreDriver(e *hx.Env, lines []string) ([]string, error) { return e.RunDriver("plugin", lines) }
+
+func compareAll(e *hx.Env, ts []*plugin.Transcript, drv DriverFunc) ([]*hx.Disagreement, error) {
 	var lines []string
 	for _, t := range ts {
 		lines = append(lines, t.Lines...)
 	}
-	out, err := RunDriver7(e, lines)
+	out, err := drv(e, lines)
 	if err != nil {
 		return nil, err
 	}
@@ -169,6 +179,10 @@ func CompareAll(e *hx.Env, ts []*plugin.Transcript) ([]*hx.Disagreement, error) 
 
 // Replay executes the op lines of a replay file (first line `init …`).
 func Replay(ops []string, rng *rand.Rand, mon plugin.Monitor) (*plugin.Transcript, error) {
+	return replayWith(ops, rng, mon, Execute)
+}
+
+func replayWith(ops []string, rng *rand.Rand, mon plugin.Monitor, exec ExecFunc) (*plugin.Transcript, error) {
 	if len(ops) == 0 {
 		return nil, fmt.Errorf("empty replay")
 	}
@@ -176,7 +190,7 @@ func Replay(ops []string, rng *rand.Rand, mon plugin.Monitor) (*plugin.Transcrip
 	if err != nil {
 		return nil, err
 	}
-	t, _, err := Execute(conf, rng, plugin.FixedScript(ops[1:]), mon, len(ops))
+	t, _, err := exec(conf, rng, plugin.FixedScript(ops[1:]), mon, len(ops))
 	return t, err
 }
 
@@ -199,6 +213,14 @@ type Generator func(rng *rand.Rand) (plugin.Conf, plugin.Script, int)
 // RunHistories executes n generated histories in parallel, runs the monitor after every op, compares all transcripts
 // with the model in one driver run, shrinks violations (one per signature) and writes replays.
 func RunHistories(e *hx.Env, prop, tag string, n int, gen Generator, mon plugin.Monitor) *Batch {
+	return RunHistoriesWith(e, prop, tag, n, gen, mon, Execute, RunDriver7)
+}
+
+// ExecFunc executes one script against a fresh world.
+type ExecFunc func(conf plugin.Conf, rng *rand.Rand, script plugin.Script, mon plugin.Monitor, maxOps int) (*plugin.Transcript, *plugin.World, error)
+
+// RunHistoriesWith is RunHistories with the executor and the Lean driver as parameters.
+func RunHistoriesWith(e *hx.Env, prop, tag string, n int, gen Generator, mon plugin.Monitor, exec ExecFunc, drv DriverFunc) *Batch {
 	b := &Batch{Stats: map[string]int{}}
 	seeds := make([]int64, n)
 	for i := range seeds {
@@ -216,7 +238,7 @@ func RunHistories(e *hx.Env, prop, tag string, n int, gen Generator, mon plugin.
 			defer func() { <-sem }()
 			rng := rand.New(rand.NewSource(seeds[i]))
 			conf, script, maxOps := gen(rng)
-			ts[i], _, errs[i] = Execute(conf, rng, script, mon, maxOps)
+			ts[i], _, errs[i] = exec(conf, rng, script, mon, maxOps)
 		}(i)
 	}
 	wg.Wait()
@@ -230,7 +252,7 @@ func RunHistories(e *hx.Env, prop, tag string, n int, gen Generator, mon plugin.
 		good = append(good, ts[i])
 		goodIdx = append(goodIdx, i)
 	}
-	ds, err := CompareAll(e, good)
+	ds, err := compareAll(e, good, drv)
 	if err != nil {
 		b.Errors = append(b.Errors, err.Error())
 		ds = make([]*hx.Disagreement, len(good))
@@ -273,7 +295,7 @@ func RunHistories(e *hx.Env, prop, tag string, n int, gen Generator, mon plugin.
 					if time.Now().After(deadline) {
 						return false
 					}
-					t2, err := Replay(c, rand.New(rand.NewSource(seeds[i])), mon)
+					t2, err := replayWith(c, rand.New(rand.NewSource(seeds[i])), mon, exec)
 					if err != nil {
 						return false
 					}
@@ -343,6 +365,11 @@ func (b *Batch) Fill(r *hx.Report) {
 
 // RunFile executes one replay / corpus file: monitor + correspondence.
 func RunFile(e *hx.Env, r *hx.Report, path string, mon plugin.Monitor, isCorpus bool) {
+	RunFileWith(e, r, path, mon, isCorpus, Execute, RunDriver7)
+}
+
+// RunFileWith is RunFile with the executor and the Lean driver as parameters.
+func RunFileWith(e *hx.Env, r *hx.Report, path string, mon plugin.Monitor, isCorpus bool, exec ExecFunc, drv DriverFunc) {
 	ops, err := hx.ReadOps(path)
 	if err != nil || len(ops) == 0 {
 		r.Disagree = append(r.Disagree, hx.Disagreement{Where: "replay-unreadable", Impl: path, Replay: path})
@@ -355,7 +382,7 @@ func RunFile(e *hx.Env, r *hx.Report, path string, mon plugin.Monitor, isCorpus 
 		RunScheduleFile(e, r, path, ops)
 		return
 	}
-	t, err := Replay(ops, rand.New(rand.NewSource(e.Seed)), mon)
+	t, err := replayWith(ops, rand.New(rand.NewSource(e.Seed)), mon, exec)
 	if err != nil {
 		r.Disagree = append(r.Disagree, hx.Disagreement{Where: "replay-failed", Impl: err.Error(), Replay: path})
 		return
@@ -375,7 +402,7 @@ func RunFile(e *hx.Env, r *hx.Report, path string, mon plugin.Monitor, isCorpus 
 	if t.Hang != "" {
 		r.Violations = append(r.Violations, hx.Violation{Signature: "op-" + strings.Fields(t.Hang)[0], What: t.Hang, Replay: path})
 	}
-	ds, err := CompareAll(e, []*plugin.Transcript{t})
+	ds, err := compareAll(e, []*plugin.Transcript{t}, drv)
 	if err != nil {
 		r.Disagree = append(r.Disagree, hx.Disagreement{Where: "driver-failed", Impl: err.Error(), Replay: path})
 		return
